@@ -21,8 +21,9 @@ import (
 var keyStrings = []string{"0", "1", "2", "3", "10", "4294967294", // array indices
 	"4294967295", "-0", "1e3", "01", "a", "b", "c", "1.0", // plain strings (6..18) ...
 	"4294967296", "10000000000", // ... integers beyond the array-index range
-	"apply", "abs", "parse"} // ... own keys of the built-in kinds; 19..22 symbols
-const nKeys = 23
+	"apply", "abs", "parse"} // ... own keys of the built-in kinds; 19..22 user symbols,
+// 23 = Symbol.toStringTag, 24 = Symbol.hasInstance (own symbol keys of the built-in kinds)
+const nKeys = 25
 const firstSym = 19
 
 // number form of a key (op.F == 1): array indices and the integer-valued strings beyond the index range
@@ -67,6 +68,17 @@ type Case struct {
 var kinds = []string{"plain", "nullproto", "func", "class", "args", "string", "bound", "goobj", "arrow",
 	"math", "json", "reflect", "funcproto"} // the last four: lazily templated built-in objects
 var builtinKey = map[string]int{"math": 17, "json": 18, "reflect": 16, "funcproto": 16}
+var builtinSym = map[string]int{"math": 23, "json": 23, "reflect": 23, "funcproto": 24}
+
+// The initial state of a built-in kind is stated here, NOT queried: any lookup of a template symbol would
+// materialise the lazily templated symbol table and so hide defects of the un-materialised state.  (A wrong
+// entry shows up as a disagreement at the first dump.)  9999 = a value outside the value pool.
+var builtinInit = map[string]string{
+	"math":      "[PD 17 9999 5; PD 23 9999 1]",
+	"json":      "[PD 18 9999 5; PD 23 9999 1]",
+	"reflect":   "[PD 16 9999 5; PD 23 9999 1]",
+	"funcproto": "[PD 16 9999 5; PD 24 9999 0]",
+}
 
 // ---- generator ----
 
@@ -160,10 +172,14 @@ func genCase(r *vh.Rng) Case {
 		}
 	}
 	j := 0
-	for _, kd := range c.Kinds { // the own key of a built-in kind is always in the pool
+	for _, kd := range c.Kinds { // the own keys of a built-in kind are in the pool
 		if bk, ok := builtinKey[kd]; ok && j < poolN {
 			pool[j] = bk
 			j++
+			if j < poolN && r.Chance(60) {
+				pool[j] = builtinSym[kd]
+				j++
+			}
 		}
 	}
 	dumpP := []int{100, 100, 35, 10}[r.Intn(4)]
@@ -171,6 +187,28 @@ func genCase(r *vh.Rng) Case {
 		dumpP = []int{10, 3, 0}[r.Intn(3)]
 	}
 	nops := 1 + r.Intn(40)
+	for t, kd := range c.Kinds {
+		// scripted opening on a lazily templated built-in: its FIRST symbol-keyed operation is a [[Set]] (or define /
+		// delete / has) with a user symbol, then its template symbol is queried; no dump in between
+		bs, ok := builtinSym[kd]
+		if !ok || !r.Chance(50) {
+			continue
+		}
+		us := firstSym + r.Intn(4)
+		switch r.Pick(6, 1, 1, 1) {
+		case 0:
+			c.Ops = append(c.Ops, Op{T: "set", O: t, K: us, S: []int{0, 2, 3}[r.Intn(3)], St: r.Bool(), V: 1 + r.Intn(6), R: t})
+		case 1:
+			v := 2
+			c.Ops = append(c.Ops, Op{T: "def", O: t, K: us, S: 1 + r.Intn(3), R: t, D: &Desc{V: &v, W: 2, E: 2, C: 2}})
+		case 2:
+			c.Ops = append(c.Ops, Op{T: "del", O: t, K: us, S: []int{0, 2, 3}[r.Intn(3)], R: t})
+		default:
+			c.Ops = append(c.Ops, Op{T: "has", O: t, K: us, S: []int{0, 2}[r.Intn(2)], R: t})
+		}
+		c.Ops = append(c.Ops, Op{T: []string{"own", "has", "get", "keys"}[r.Intn(4)], O: t, K: bs, S: 2, R: t})
+		c.Ops = append(c.Ops, Op{T: "keys", O: t, S: 1 + r.Intn(3), R: t, Dump: r.Chance(50)})
+	}
 	if profile == 1 && r.Chance(50) {
 		// scripted opening aimed at the bookkeeping of _delete / fixPropOrder: several integer keys, an
 		// enumeration (orders the list), deletion of most of them, new integer keys, another enumeration
@@ -312,7 +350,7 @@ const prelude = `
 var O = [], KC = new Map(), OC = new Map();
 var K = ["0","1","2","3","10","4294967294","4294967295","-0","1e3","01","a","b","c","1.0",
          "4294967296","10000000000","apply","abs","parse",
-         Symbol("s0"),Symbol("s1"),Symbol("s2"),Symbol("s3")];
+         Symbol("s0"),Symbol("s1"),Symbol("s2"),Symbol("s3"),Symbol.toStringTag,Symbol.hasInstance];
 for (var i = 0; i < K.length; i++) KC.set(K[i], i);
 function vcode(v) { if (v === undefined) return 0; if (typeof v === 'number' && v > 0 && v < 100 && v === Math.floor(v)) return v;
   if (OC.has(v)) return 100 + OC.get(v); return 9999; }
@@ -993,7 +1031,13 @@ func runCase(c Case) vh.Record {
 	last := make([]string, n)
 	var init []string
 	for i := 0; i < n; i++ {
-		if v, err := e.call("DUMP0", e.objs[i]); err == nil {
+		if bi, ok := builtinInit[c.Kinds[i]]; ok && i < len(c.Kinds) {
+			ps := "0"
+			if i < len(c.Protos) && c.Protos[i] >= 0 && c.Protos[i] < i {
+				ps = fmt.Sprint(c.Protos[i] + 1)
+			}
+			last[i] = "OD " + ps + " true " + bi
+		} else if v, err := e.call("DUMP0", e.objs[i]); err == nil {
 			last[i] = v.String()
 		} else {
 			last[i] = "OD 0 false [PD 0 9999 0]"
